@@ -50,10 +50,10 @@ instance (x : Mfhd) : Decidable x.Wf := by unfold Mfhd.Wf; infer_instance
 def encMfhd (x : Mfhd) : Bytes :=
   encU8 x.version ++ (encU24 x.flags ++ encU32 x.sequence_number)
 
-def decMfhd' (bs : Bytes) : Option (Mfhd × Bytes) := do
-  let (version, bs) ← decU8 bs
-  let (flags, bs) ← decU24 bs
-  let (seq, bs) ← decU32 bs
+def decMfhd' (bs : Bytes) : Option (Mfhd × Bytes) :=
+  andThen (decU8 bs) fun version bs =>
+  andThen (decU24 bs) fun flags bs =>
+  andThen (decU32 bs) fun seq bs =>
   some ({ version := version, flags := flags, sequence_number := seq }, bs)
 
 def decMfhd : Bytes → Option Mfhd := exact decMfhd'
@@ -75,10 +75,10 @@ def encTfdt (x : Tfdt) : Bytes :=
   encU8 x.version ++ (encU24 x.flags ++
     encW (x.version == 1) x.base_media_decode_time)
 
-def decTfdt' (bs : Bytes) : Option (Tfdt × Bytes) := do
-  let (version, bs) ← decU8 bs
-  let (flags, bs) ← decU24 bs
-  let (t, bs) ← decW (version == 1) bs
+def decTfdt' (bs : Bytes) : Option (Tfdt × Bytes) :=
+  andThen (decU8 bs) fun version bs =>
+  andThen (decU24 bs) fun flags bs =>
+  andThen (decW (version == 1) bs) fun t bs =>
   some ({ version := version, flags := flags, base_media_decode_time := t }, bs)
 
 def decTfdt : Bytes → Option Tfdt := exact decTfdt'
@@ -107,10 +107,10 @@ def encMehd (x : Mehd) : Bytes :=
   encU8 x.version ++ (encU24 x.flags ++
     encW (x.version == 1) x.fragment_duration)
 
-def decMehd' (bs : Bytes) : Option (Mehd × Bytes) := do
-  let (version, bs) ← decU8 bs
-  let (flags, bs) ← decU24 bs
-  let (t, bs) ← decW (version == 1) bs
+def decMehd' (bs : Bytes) : Option (Mehd × Bytes) :=
+  andThen (decU8 bs) fun version bs =>
+  andThen (decU24 bs) fun flags bs =>
+  andThen (decW (version == 1) bs) fun t bs =>
   some ({ version := version, flags := flags, fragment_duration := t }, bs)
 
 def decMehd : Bytes → Option Mehd := exact decMehd'
@@ -137,14 +137,14 @@ def encTrex (x : Trex) : Bytes :=
     (encU32 x.default_sample_description_index ++ (encU32 x.default_sample_duration ++
     (encU32 x.default_sample_size ++ encU32 x.default_sample_flags)))))
 
-def decTrex' (bs : Bytes) : Option (Trex × Bytes) := do
-  let (version, bs) ← decU8 bs
-  let (flags, bs) ← decU24 bs
-  let (tid, bs) ← decU32 bs
-  let (dsdi, bs) ← decU32 bs
-  let (dsd, bs) ← decU32 bs
-  let (dss, bs) ← decU32 bs
-  let (dsf, bs) ← decU32 bs
+def decTrex' (bs : Bytes) : Option (Trex × Bytes) :=
+  andThen (decU8 bs) fun version bs =>
+  andThen (decU24 bs) fun flags bs =>
+  andThen (decU32 bs) fun tid bs =>
+  andThen (decU32 bs) fun dsdi bs =>
+  andThen (decU32 bs) fun dsd bs =>
+  andThen (decU32 bs) fun dss bs =>
+  andThen (decU32 bs) fun dsf bs =>
   some ({ version := version, flags := flags, track_id := tid,
           default_sample_description_index := dsdi, default_sample_duration := dsd,
           default_sample_size := dss, default_sample_flags := dsf }, bs)
@@ -168,12 +168,12 @@ instance (x : Tenc) : Decidable x.Wf := by unfold Tenc.Wf; infer_instance
 def encTenc (x : Tenc) : Bytes :=
   encU8 x.version ++ (encU24 x.flags ++ (encU24 x.is_encrypted ++ (encU8 x.iv_size ++ x.default_kid)))
 
-def decTenc' (bs : Bytes) : Option (Tenc × Bytes) := do
-  let (version, bs) ← decU8 bs
-  let (flags, bs) ← decU24 bs
-  let (enc, bs) ← decU24 bs
-  let (iv, bs) ← decU8 bs
-  let (kid, bs) ← takeN 16 bs
+def decTenc' (bs : Bytes) : Option (Tenc × Bytes) :=
+  andThen (decU8 bs) fun version bs =>
+  andThen (decU24 bs) fun flags bs =>
+  andThen (decU24 bs) fun enc bs =>
+  andThen (decU8 bs) fun iv bs =>
+  andThen (takeN 16 bs) fun kid bs =>
   some ({ version := version, flags := flags, is_encrypted := enc, iv_size := iv,
           default_kid := kid }, bs)
 
@@ -196,11 +196,17 @@ def encFtyp (x : Ftyp) : Bytes :=
 
 /-- `while size > 3: cb = read(4)` – as many brands as fit; the strict model
 rejects 1–3 trailing bytes (the code ignores them and they are lost on encode) -/
-def decFtyp (bs : Bytes) : Option Ftyp := do
-  let (major, bs) ← takeN 4 bs
-  let (minor, bs) ← decU32 bs
+def decBrands (bs : Bytes) : Option (List Bytes) :=
   if bs.length % 4 ≠ 0 then none else
-  let (brands, _) ← decMany (takeN 4) (bs.length / 4) bs
-  some { major_brand := major, minor_version := minor, compatible_brands := brands }
+    match decMany (takeN 4) (bs.length / 4) bs with
+    | some (brands, _) => some brands
+    | none => none
+
+def decFtyp (bs : Bytes) : Option Ftyp :=
+  andThen (takeN 4 bs) fun major bs =>
+  andThen (decU32 bs) fun minor bs =>
+  match decBrands bs with
+  | some brands => some { major_brand := major, minor_version := minor, compatible_brands := brands }
+  | none => none
 
 end DashLive.Boxes
